@@ -892,6 +892,41 @@ class Emitter:
         s.anon = {}
         s.anon_list = []
 
+    # ---- x86-64 data layout
+    def alignof(s, t):
+        if isinstance(t, IntTy):
+            return max(1, min(8, (t.bits + 7) // 8)) if t.bits <= 64 else 16
+        if isinstance(t, PtrTy):
+            return 8
+        if isinstance(t, ArrTy):
+            return s.alignof(t.el)
+        if isinstance(t, StructTy):
+            if getattr(t, 'packed', False) or not t.fields:
+                return 1
+            return max(s.alignof(f) for f in t.fields)
+        raise Unsupported('alignof ' + t.key())
+
+    def sizeof(s, t):
+        if isinstance(t, IntTy):
+            b = (t.bits + 7) // 8
+            return 1 if b <= 1 else 2 if b <= 2 else 4 if b <= 4 else 8 if b <= 8 else 16
+        if isinstance(t, PtrTy):
+            return 8
+        if isinstance(t, ArrTy):
+            return t.n * s.sizeof(t.el)
+        if isinstance(t, StructTy):
+            if getattr(t, 'opaque', False):
+                raise Unsupported('sizeof opaque')
+            off = 0
+            packed = getattr(t, 'packed', False)
+            for f in t.fields:
+                a = 1 if packed else s.alignof(f)
+                off = (off + a - 1) // a * a
+                off += s.sizeof(f)
+            a = 1 if packed else s.alignof(t)
+            return (off + a - 1) // a * a
+        raise Unsupported('sizeof ' + t.key())
+
     # ---- names
     def uniq(s, base):
         cand = base
@@ -1298,6 +1333,7 @@ class Emitter:
                         decls.append(dl)
         # first pointer type an i8* value is bitcast to (used to type heap allocations)
         s.cast_of = {}
+        s.cast_all = {}
         src_of = {}   # i8** value -> original typed pointer type it was bitcast from
         s.src_of = src_of
         s.p2i = {}
@@ -1309,18 +1345,21 @@ class Emitter:
             for I in ins:
                 if I['op'] == 'bitcast' and I['v'][0] == 'local' and isinstance(I['to'], PtrTy):
                     s.cast_of.setdefault(I['v'][1], I['to'].to)
+                    s.cast_all.setdefault(I['v'][1], []).append(I['to'].to)
                     src_of[I['dest']] = I['v'][2]
         for lbl, ins in f.blocks:
             for I in ins:
                 # store i8* %p, i8** %q  where %q = bitcast X* ... : the first scalar leaf of X is a T*
                 if I['op'] == 'store' and I['v'][0] == 'local' and I['ptr'][0] == 'local' \
-                        and I['ptr'][1] in src_of and I['v'][1] not in s.cast_of:
+                        and I['ptr'][1] in src_of:
                     t = src_of[I['ptr'][1]]
                     t = t.to if isinstance(t, PtrTy) else None
                     while isinstance(t, (StructTy, ArrTy)):
                         t = (t.fields[0] if t.fields else None) if isinstance(t, StructTy) else t.el
                     if isinstance(t, PtrTy) and not isinstance(t.to, (FnTy, VoidTy)):
-                        s.cast_of[I['v'][1]] = t.to
+                        s.cast_all.setdefault(I['v'][1], []).append(t.to)
+                        if I['v'][1] not in s.cast_of:
+                            s.cast_of[I['v'][1]] = t.to
         # phi map: block -> list of (dest, {pred: val})
         s.phis = {}
         for lbl, ins in f.blocks:
@@ -1553,8 +1592,19 @@ class Emitter:
         if name in ('@_Znwm', '@_Znam', '@malloc', '@__cxa_allocate_exception') and d and args[0][0][0] == 'int' and I['dest'] in s.cast_of \
                 and isinstance(s.cast_of[I['dest']], (StructTy, IntTy, PtrTy)) \
                 and not getattr(s.cast_of[I['dest']], 'opaque', False):
-            T = s.ctype(s.cast_of[I['dest']])
             n = args[0][0][1]
+            # after inlining the FIRST bitcast of a fresh allocation is often the vptr slot or a leading member; prefer the
+            # struct type whose size is exactly the allocation size (x86-64 layout), so that CBMC gets a typed object
+            best = s.cast_of[I['dest']]
+            for cand in s.cast_all.get(I['dest'], []):
+                if isinstance(cand, StructTy) and not getattr(cand, 'opaque', False):
+                    try:
+                        if s.sizeof(cand) == n:
+                            best = cand
+                            break
+                    except Unsupported:
+                        pass
+            T = s.ctype(best)
             body.append('  %s = (u8*)IR2C_NEW(%s, %dULL);' % (d, T, n))
             if I['op'] == 'invoke':
                 s.edge(lbl, I['normal'], body)
